@@ -185,18 +185,38 @@ type c13sParams struct {
 	Strategy string
 	Modes    []string
 	Breaker  bool
+	// Start is the state the overlapping requests arrive in: "" (fresh), "open" (breaker tripped),
+	// "open-expired" (tripped, timeout elapsed: the first arrival is the half-open trial and the
+	// others are turned away while it is in flight), "one-token" (rate limiter down to one token)
+	Start string
 }
 
 func c13sScenario(p c13sParams, bound int) vh.SScenario {
-	return vh.SScenario{Name: fmt.Sprintf("accounting-conc-%s-%v-breaker%v", p.Strategy, p.Modes, p.Breaker), KeyPrefix: "C13/conc", Bound: bound, Params: p, Body: func(x *vh.Exec) {
+	return vh.SScenario{Name: fmt.Sprintf("accounting-conc-%s-%v-breaker%v-start-%s", p.Strategy, p.Modes, p.Breaker, p.Start), KeyPrefix: "C13/conc", Bound: bound, Params: p, Body: func(x *vh.Exec) {
 		s := x.S
-		y := newC13Sys(s, p.Strategy, p.Breaker, false)
+		y := newC13Sys(s, p.Strategy, p.Breaker, p.Start == "one-token")
 		key, what, out := "", "", ""
 		x.Check = func(v vrt.Verdict) (string, string, string, bool) {
 			if v.Kind != vrt.OK {
 				return out, "", "", false
 			}
 			return out, key, what, true
+		}
+		prelude := 0
+		switch p.Start {
+		case "open", "open-expired":
+			for i := 0; i < 3; i++ {
+				y.k.RequestMode("10.0.0.1", "500")
+				prelude++
+			}
+			if p.Start == "open-expired" {
+				s.AdvanceQuiet(3100 * time.Millisecond)
+			}
+		case "one-token":
+			for i := 0; i < 2; i++ {
+				y.k.RequestMode("10.0.0.1", "ok")
+				prelude++
+			}
 		}
 		s.Branch(true)
 		var ths []*vrt.Thread
@@ -207,14 +227,14 @@ func c13sScenario(p c13sParams, bound int) vh.SScenario {
 				res[i] = y.k.RequestMode("10.0.0.1", m)
 			}))
 		}
-		y.issued = len(p.Modes)
+		y.issued = prelude + len(p.Modes)
 		s.Join(ths...)
 		s.Branch(false)
 		for _, r := range res {
 			out += fmt.Sprintf("%d/%v ", r.Status, r.Aborted)
 		}
 		if k, w := y.audit(map[string]int{}); k != "" {
-			key, what = k+"/concurrent", fmt.Sprintf("%s, overlapping requests %v: at quiescence %s", p.Strategy, p.Modes, w)
+			key, what = k+"/concurrent", fmt.Sprintf("%s, overlapping requests %v: at quiescence %s", p.Strategy, p.Modes, w)+map[bool]string{true: " (arriving in state " + p.Start + ")"}[p.Start != ""]
 		}
 	}}
 }
@@ -240,14 +260,22 @@ func TestVerifC13S(t *testing.T) {
 	var scs []vh.SScenario
 	// ip_hash sends both requests of one client to the same backend: the gauge is really shared
 	for _, m := range [][]string{{"ok", "ok"}, {"ok", "abort"}, {"500", "ok"}} {
-		scs = append(scs, c13sScenario(c13sParams{"ip_hash", m, false}, bound))
+		scs = append(scs, c13sScenario(c13sParams{Strategy: "ip_hash", Modes: m, Breaker: false}, bound))
 	}
-	scs = append(scs, c13sScenario(c13sParams{"round_robin", []string{"ok", "ok"}, true}, bound))
+	scs = append(scs, c13sScenario(c13sParams{Strategy: "round_robin", Modes: []string{"ok", "ok"}, Breaker: true}, bound))
+	// the same overlaps arriving in non-initial control states
+	for _, st := range []string{"open-expired", "open", "one-token"} {
+		for _, m := range [][]string{{"ok", "ok"}, {"ok", "500"}} {
+			scs = append(scs, c13sScenario(c13sParams{Strategy: "round_robin", Modes: m, Breaker: st != "one-token", Start: st}, bound))
+		}
+	}
 	if vres.Thorough() {
-		scs = append(scs, c13sScenario(c13sParams{"ip_hash", []string{"ok", "ok", "abort"}, false}, 2),
-			c13sScenario(c13sParams{"least_connections", []string{"ok", "ok", "ok"}, false}, 2),
-			c13sScenario(c13sParams{"ip_hash", []string{"ok", "ok"}, false}, 3),
-			c13sScenario(c13sParams{"ip_hash", []string{"abort", "abort"}, true}, 3))
+		scs = append(scs, c13sScenario(c13sParams{Strategy: "round_robin", Modes: []string{"ok", "ok", "abort"}, Breaker: true, Start: "open-expired"}, 2),
+			c13sScenario(c13sParams{Strategy: "least_connections", Modes: []string{"ok", "ok", "ok"}, Breaker: false, Start: "one-token"}, 2))
+		scs = append(scs, c13sScenario(c13sParams{Strategy: "ip_hash", Modes: []string{"ok", "ok", "abort"}, Breaker: false}, 2),
+			c13sScenario(c13sParams{Strategy: "least_connections", Modes: []string{"ok", "ok", "ok"}, Breaker: false}, 2),
+			c13sScenario(c13sParams{Strategy: "ip_hash", Modes: []string{"ok", "ok"}, Breaker: false}, 3),
+			c13sScenario(c13sParams{Strategy: "ip_hash", Modes: []string{"abort", "abort"}, Breaker: true}, 3))
 	}
 	for i, sc := range scs {
 		if vh.MyShard(i) {
